@@ -281,6 +281,7 @@ class PrecipitateModel (PrecipitateBase):
         #Setup interfacial composition
         if self.numberOfElements == 1:
             self.pData.xEqAlpha[self.pData.n], self.pData.xEqBeta[self.pData.n] = self._createLookupBinary(self.pData.temperature[self.pData.n])
+            Y.xEqAlpha[0], Y.xEqBeta[0] = self.pData.xEqAlpha[self.pData.n], self.pData.xEqBeta[self.pData.n]
         else:
             self.PSDXalpha = [None for p in range(len(self.phases))]
             self.PSDXbeta = [None for p in range(len(self.phases))]
